@@ -840,6 +840,29 @@ var c06single = []string{"set", "SET", "Set", "incr", "lpush", "HSET", "expire",
 var c06bare = []string{"eval", "EVAL", "evalsha", "EvalSha", "script", "SCRIPT", "opinfo", "OPINFO", "OpInfo",
 	"multi", "exec", "flushall"}
 
+// c06dbNumbers: the well-formed database numbers listed in field `name` of a rendered configuration
+func c06dbNumbers(cfg, name string) []int {
+	var out []int
+	for _, f := range strings.Fields(cfg) {
+		if !strings.HasPrefix(f, name) || f == name+"_" {
+			continue
+		}
+		for _, h := range strings.Split(f[len(name):], ",") {
+			if h == "-" || len(h)%2 != 0 {
+				continue
+			}
+			b := make([]byte, len(h)/2)
+			if _, err := fmt.Sscanf(h, "%x", &b); err != nil {
+				continue
+			}
+			if n, err := strconv.Atoi(string(b)); err == nil && n >= 0 && n < 16 {
+				out = append(out, n)
+			}
+		}
+	}
+	return out
+}
+
 func (g *gen) c06path(kind string) {
 	var keys [][]byte
 	cfg := g.c06cfg(func(c c06cfg) [][]byte {
@@ -898,8 +921,34 @@ func (g *gen) c06path(kind string) {
 	tdb := -1
 	if g.r.Intn(3) == 0 {
 		tdb = g.r.Intn(16) // target.db: every key lands in one database; the filters still read the SOURCE number
+		if g.r.Intn(2) == 0 {
+			tdb = dbs[g.r.Intn(len(dbs))] // … often a database the source also uses
+		}
+		// … and often one that the database lists exclude (its number is then both a filtered source db
+		// and the db every forwarded SELECT names)
+		if bl := c06dbNumbers(fmt.Sprint(cfg), "db="); len(bl) > 0 && g.r.Intn(2) == 0 {
+			tdb = bl[g.r.Intn(len(bl))]
+			dbs = append(dbs, tdb)
+		}
+	}
+	// the incremental parser is stateful (bypass flag, last selected db): revisit databases in any order,
+	// re-select the current one, select the target db itself
+	if len(keys) > 0 {
+		for j := g.r.Intn(6); j > 0; j-- {
+			d := dbs[g.r.Intn(len(dbs))]
+			if tdb != -1 && g.r.Intn(3) == 0 {
+				d = tdb
+			}
+			items = append(items, fmt.Sprintf("s:%d", d))
+			for n := g.r.Intn(3); n > 0; n-- {
+				k := keys[g.r.Intn(len(keys))]
+				items = append(items, fmt.Sprintf("c:%s:%s", hx([]byte(c06single[g.r.Intn(len(c06single))])), hx(k)))
+			}
+		}
 	}
 	switch kind {
+	case "incr":
+		g.emit("path %s tdb=%d ls=%d E=_ S=%s", cfg, tdb, utils.KeyToSlot("lua"), strings.Join(items, ","))
 	case "path":
 		g.emit("path %s tdb=%d ls=%d E=%s S=%s", cfg, tdb, utils.KeyToSlot("lua"), e, strings.Join(items, ","))
 	case "rump":
@@ -957,6 +1006,10 @@ func genC06(g *gen) {
 	// path level
 	for i := 0; i < g.pick(40, 1200); i++ {
 		g.c06path("path")
+	}
+	// incremental-only streams (no snapshot entries, so they are cheap): many select sequences
+	for i := 0; i < g.pick(500, 8000); i++ {
+		g.c06path("incr")
 	}
 	for i := 0; i < g.pick(25, 500); i++ {
 		g.c06path("tail")
